@@ -208,7 +208,8 @@ Print Assumptions C11_get_ast_accepts_iff.
 (* ---- the cell card (MIP/mip/cellcard.py split) ----
    a card  name blanks mat [blanks rho] blanks E options : name and material
    number are digit strings ("0"... = void, then no density), the density is
-   made of digits, signs and '.', E consists of expression characters and starts
+   any token without blanks and parentheses that does not start with a letter
+   or '*' ("-2.7", "1.0E-3"), E consists of expression characters and starts
    with a non-blank and is separated from the material part by g3 blanks
    ([sep_ok]: g3 may be 0 when an opening parenthesis follows a density,
    "3 -2.7(1:2)"), the options (if any) start with a letter or '*' right after
@@ -289,18 +290,25 @@ Example C11_example_card :
   split_card "12 3 -2.7 #5 (1:-2)imp:n=1 u=2"%string = Ok (" #5 (1:-2)"%string, "imp:n=1 u=2"%string).
 Proof.
   cbv zeta. split; [|split; [|split]].
-  - split; [reflexivity|]. split; [reflexivity|]. split; [reflexivity|discriminate].
+  - split; [reflexivity|]. split; [reflexivity|]. split; [reflexivity|]. split; [discriminate|reflexivity].
   - right. exists "#5 (1:-2"%string, ")"%char, "i"%char, "mp:n=1 u=2"%string. repeat split; reflexivity.
   - reflexivity.
   - vm_compute. reflexivity.
 Qed.
 
-(* the density glued to an opening parenthesis *)
+(* the density (with an exponent letter) glued to an opening parenthesis *)
 Example C11_example_card_glued :
-  sep_ok (Some (0, "-2.7"%string)) 0 "(1:-2) 3"%string /\
-  (card_body "12" 0 "3" (Some (0, "-2.7")) 0 "(1:-2) 3" ++ "" = "12 3 -2.7(1:-2) 3")%string /\
-  split_card "12 3 -2.7(1:-2) 3"%string = Ok ("(1:-2) 3"%string, ""%string).
-Proof. split; [|split]; [right; split; [discriminate|reflexivity]|reflexivity|vm_compute; reflexivity]. Qed.
+  mat_ok "3"%string (Some (0, "2.7E-3"%string)) /\
+  sep_ok (Some (0, "2.7E-3"%string)) 0 "(1:-2) 3"%string /\
+  (card_body "12" 0 "3" (Some (0, "2.7E-3")) 0 "(1:-2) 3" ++ "u=2" = "12 3 2.7E-3(1:-2) 3u=2")%string /\
+  split_card "12 3 2.7E-3(1:-2) 3 u=2"%string = Ok ("(1:-2) 3 "%string, "u=2"%string).
+Proof.
+  split; [|split; [|split]].
+  - split; [reflexivity|]. split; [reflexivity|]. split; [reflexivity|]. split; [discriminate|reflexivity].
+  - right. split; [discriminate|reflexivity].
+  - reflexivity.
+  - vm_compute. reflexivity.
+Qed.
 
 (* non-vacuity of the end-to-end theorem: cells 1 = "-1 2", 2 = "#1 : 3",
    and the expression "#2 #1" *)
